@@ -330,7 +330,9 @@ class StreamReaderBufferedProtocol(asyncio.BufferedProtocol):
             nbytes_written_in_external_buffer: int | None
             if self.__buffer_nbytes_written or self.__eof_reached:
                 self.__read_waiter.set_result(None)
-                await TaskUtils.coro_yield()
+                # There is something to return right now: this checkpoint must not turn a pending cancellation
+                # (e.g. a scope whose deadline has already passed, for a polling call) into "nothing received".
+                await TaskUtils.cancel_shielded_coro_yield()
                 nbytes_written_in_external_buffer = None
             else:
                 assert not self.__read_paused, "transport reading is paused"  # nosec assert_used
